@@ -63,8 +63,10 @@ impl AsyncRichIndexerHandle {
                 )
                 .await?;
 
-                let mut last_id = 0;
-                let mut count = 0i32;
+                // The cursor is (last tx id, rows of that tx already returned) and is applied as
+                // `tx_id >= last OFFSET n`: rows of that tx on this page continue the count of the
+                // previous pages instead of restarting it (and an empty page keeps the cursor).
+                let (mut last_id, mut count) = last_cursor.unwrap_or((0, 0i32));
                 let txs = txs
                     .into_iter()
                     .map(|(id, block_number, tx_index, tx_hash, io_type, io_index)| {
